@@ -354,3 +354,70 @@ func runNeutralPairs(c *CaseDesc, rng *rand.Rand) []string {
 	}
 	return out
 }
+
+// ---- C12: asking for *Debugging is neutral, and what it says matches the bound chain
+
+func runDebugPair(c *CaseDesc) []string {
+	base := runCase(c)
+	c2 := c.clone()
+	fin := c2.Provs[len(c2.Provs)-1]
+	if contains(fin.In, cDebug) {
+		return base
+	}
+	fin.In = append(fin.In, cDebug)
+	v := runCase(c2)
+	strip := func(s summary) summary {
+		for i, l := range s.trace {
+			for _, d := range []string{"23:1", "23:0"} {
+				l = strings.ReplaceAll(l, ","+d, "")
+				l = strings.ReplaceAll(l, d+",", "")
+				l = strings.ReplaceAll(l, " "+d, " -")
+			}
+			s.trace[i] = l
+		}
+		return s
+	}
+	out := withPair(base, "debug", v, strip(summarize(base, false)).diff(strip(summarize(v, false))))
+	// the variant's Debugging value against the variant's own S7 dump
+	var names, ie string
+	var want []string
+	nInc, nExc, total := 0, 0, 0
+	inS7 := false
+	for _, l := range v {
+		switch {
+		case strings.HasPrefix(l, "dump "):
+			inS7 = strings.HasPrefix(l, "dump S7 ")
+		case strings.HasPrefix(l, "f ") && inS7:
+			kv := pKV(strings.Fields(l))
+			total++
+			if kv["inc"] == "1" {
+				nInc++
+				if kv["index"] != "-1" {
+					want = append(want, kv["origin"]+"("+kv["index"]+")")
+				} else {
+					want = append(want, kv["origin"])
+				}
+			} else {
+				nExc++
+			}
+		case strings.HasPrefix(l, "d names ") && names == "":
+			names = strings.TrimPrefix(l, "d names ")
+		case strings.HasPrefix(l, "d ie ") && ie == "":
+			ie = strings.TrimPrefix(l, "d ie ")
+		}
+	}
+	out = out[:len(out)-1]
+	if names != "" {
+		if names == strings.Join(want, "|") {
+			out = append(out, "pair dbgnames same")
+		} else {
+			out = append(out, "pair dbgnames diff reported="+names+" bound="+strings.Join(want, "|"))
+		}
+		if ie == fmt.Sprintf("included=%d excluded=%d total=%d", nInc, nExc, total) {
+			out = append(out, "pair dbgie same")
+		} else {
+			out = append(out, fmt.Sprintf("pair dbgie diff reported=%s bound=included=%d,excluded=%d,total=%d", strings.ReplaceAll(ie, " ", ","), nInc, nExc, total))
+		}
+	}
+	return append(out, "end")
+}
